@@ -3,14 +3,52 @@
 use crate::engine::Property;
 
 pub mod c01;
+pub mod c02;
+pub mod c03;
+pub mod c04;
+pub mod c05;
+pub mod c06;
+pub mod c07;
+pub mod c08;
+pub mod c09;
+pub mod c10;
+pub mod c11;
+pub mod c12;
+pub mod c13;
+pub mod c14;
+pub mod c15;
+pub mod c16;
+pub mod c17;
+pub mod c18;
+pub mod c19;
+pub mod c20;
 
 pub fn ids() -> Vec<&'static str> {
-    vec!["C01"]
+    vec!["C01", "C02", "C03", "C04", "C05", "C06", "C07", "C08", "C09", "C10", "C11", "C12", "C13", "C14", "C15", "C16", "C17", "C18", "C19", "C20"]
 }
 
 pub fn lookup(id: &str) -> Option<Property> {
     match id {
         "C01" => Some(c01::property()),
+        "C02" => Some(c02::property()),
+        "C03" => Some(c03::property()),
+        "C04" => Some(c04::property()),
+        "C05" => Some(c05::property()),
+        "C06" => Some(c06::property()),
+        "C07" => Some(c07::property()),
+        "C08" => Some(c08::property()),
+        "C09" => Some(c09::property()),
+        "C10" => Some(c10::property()),
+        "C11" => Some(c11::property()),
+        "C12" => Some(c12::property()),
+        "C13" => Some(c13::property()),
+        "C14" => Some(c14::property()),
+        "C15" => Some(c15::property()),
+        "C16" => Some(c16::property()),
+        "C17" => Some(c17::property()),
+        "C18" => Some(c18::property()),
+        "C19" => Some(c19::property()),
+        "C20" => Some(c20::property()),
         _ => None,
     }
 }
